@@ -295,12 +295,15 @@ impl<D: DataMut> ReaderFrom for MatZnx<D> {
         let len: usize = reader.read_u64::<LittleEndian>()? as usize;
 
         // Checked: the header is untrusted and the product may not fit a usize.
-        let expected_len: Option<usize> = new_rows
-            .checked_mul(new_cols_in)
-            .and_then(|x| x.checked_mul(new_n))
-            .and_then(|x| x.checked_mul(new_cols_out))
+        // Same association as `MatZnx::bytes_of` (rows * cols_in * bytes_of_vec_znx(n, cols_out, size)),
+        // so that no later size computation on the committed dimensions can overflow either.
+        let entry_len: Option<usize> = new_n
+            .checked_mul(new_cols_out)
             .and_then(|x| x.checked_mul(new_size))
             .and_then(|x| x.checked_mul(size_of::<i64>()));
+        let expected_len: Option<usize> = new_rows
+            .checked_mul(new_cols_in)
+            .and_then(|x| entry_len.and_then(|y| x.checked_mul(y)));
         if expected_len != Some(len) {
             return Err(std::io::Error::new(
                 std::io::ErrorKind::InvalidData,
